@@ -4,13 +4,19 @@ import check as CK
 from props import coordcommon as CC
 
 TRANSLATORS = ["enums", "defender", "dispatch"]
-COQ_FILES = ["Props/C04.v", "Obl/DispatchOk.v", "Obl/EnumsOk.v"]
+COQ_FILES = ["Props/C04.v", "Props/C04_goal.v", "Obl/DispatchOk.v", "Obl/EnumsOk.v"]
 
 
 def correspondence(ctx):
     n = 400 if ctx.tier == "thorough" else 40
     CC.run_sessions(ctx, "C04", n, lambda rng: dict(n_events=rng.choice([40,70]), burst=0.2, fault=0.03, bad=0.05, resets=0.08), lambda rng: dict(max_steps=rng.choice([None,1,2,3,4,6])))
+    # the goal check itself against Model/Goal.v (generated goal / view pairs)
+    from props import goalcorr
+    goalcorr.run(ctx, "C04", 3000 if ctx.tier == "thorough" else 600)
 
 
 def replay(ctx, payload):
+    if payload.get("kind") == "goal_pair":
+        print(json.dumps(payload, indent=1)[:3000])
+        return 0
     return CC.replay_session(ctx, "C04", payload)
